@@ -60,6 +60,8 @@ def strategy_case(draw: Any) -> Dict[str, Any]:
     # decoys: files named like this run's reports (and their ezodf backups) lying in the working directory, in $HOME and in a
     # sibling of the output directory; a stale copy inside the output directory itself may be replaced, these may not be touched
     case["decoys"] = draw(st.sampled_from(["none", "cwd", "cwd", "home", "all", "all"]))
+    # environment switches rp2 reads: LOG_LEVEL (documented in README.dev.md) and RP2_ENABLE_PROFILER (rp2_main)
+    case["env"] = draw(st.sampled_from([{}, {}, {}, {"LOG_LEVEL": "DEBUG"}, {"RP2_ENABLE_PROFILER": "1"}, {"LOG_LEVEL": "DEBUG", "RP2_ENABLE_PROFILER": "1"}]))
     return case
 
 
@@ -155,6 +157,9 @@ def evaluate(case: Dict[str, Any]) -> Outcome:
         log_path = os.path.join(folder, "audit.jsonl")
         planted = plant_decoys(case, folder, os.path.join(folder, "out"))
         home_env = {"HOME": os.path.join(folder, "home")} if planted else {}
+        home_env.update(case.get("env") or {})
+        for key in case.get("env") or {}:
+            out.classes.add(f"env_{key}")
         if case["mode"] == "invalid":
             ini, ods, extra_args, env = c12.build(case, folder)
             outdir = os.path.join(folder, "out")
